@@ -122,6 +122,12 @@ pub fn run(a: &Args, out: &mut impl Write) {
     for _ in 0..a.n {
         tramp(out, r.next() >> r.below(40));
     }
+    // constants written in the source, as fake addresses
+    for &l in &literal_pool() {
+        for d in [0u64, 1, u64::MAX] {
+            tramp(out, l.wrapping_add(d));
+        }
+    }
     for v in [false, true] {
         writeln!(out, "a64bool {} | {}", v as u8, hexb(&a64::verif_bool_stub(v)[..8])).unwrap();
     }
@@ -134,6 +140,18 @@ pub fn run(a: &Args, out: &mut impl Write) {
         for d in [-lim - 8, -lim - 4, -lim, -lim + 4, -4, 0, 4, 4096, lim - 8, lim - 4, lim, lim + 4, lim + 4096, 2 * lim - 4, 2 * lim, 4 * lim, 8 * lim - 4, 16 * lim - 4, 16 * lim, 32 * lim] {
             entry(out, f, (f as i64 + d) as u64);
             entry(out, f, (f as i64 - d) as u64);
+        }
+    }
+    // constants written in the source, as entry displacements (word aligned) and long-jump distances
+    for &l in &literal_pool() {
+        if l < (1u64 << 40) {
+            for d in [-4i64, 0, 4] {
+                let disp = ((l as i64) & !3) + d;
+                entry(out, funcs[0], (funcs[0] as i64 + disp) as u64);
+                entry(out, funcs[0], (funcs[0] as i64 - disp) as u64);
+                longj(out, 0x1_0000_0f40, (0x1_0000_0f40i64 + disp) as u64);
+                longj(out, 0x1_0000_0f40, (0x1_0000_0f40i64 - disp) as u64);
+            }
         }
     }
     let band = if a.tier_thorough { 1 << 16 } else { 1 << 9 };
@@ -180,6 +198,12 @@ pub fn run(a: &Args, out: &mut impl Write) {
                 }
                 a32(out, b32, (b32 + off) as u32 | 1, t); // Thumb state
             }
+        }
+    }
+    for &l in &literal_pool() {
+        for d in [0u32, 1, u32::MAX] {
+            a32(out, b_lo, (b_lo + 16) as u32, (l as u32).wrapping_add(d));
+            a32(out, b_lo, (b_lo + 18) as u32 | 1, (l as u32).wrapping_add(d));
         }
     }
     for i in 0..a.n {
